@@ -1036,6 +1036,16 @@ def _loc(repo, col):
     comp_call = next((x for t_ in terms for x in t_.walk() if x.op == "mcall" and x.name == "comp" and len(x.args) > 1), None)
     if comp_call is None:
         raise AnalysisError("Module.loc no longer selects compartments with .comp(...)")
+    # every branch interprets the CALLER's location argument: the loop over the branches must not rebind the parameter (F25: after
+    # the first branch `at` was no longer "all" but that branch's grid, so later branches with another compartment count were
+    # selected only partly)
+    p_at = fi.params[1] if len(fi.params) > 1 else None
+    rebound = [x for lp in walk_no_nested(fi.node) if isinstance(lp, (ast.For, ast.While)) for st in lp.body for x in ast.walk(st)
+               if isinstance(x, ast.Name) and x.id == p_at and isinstance(x.ctx, ast.Store)]
+    col.check(not rebound, R, fi, "every branch interprets the location argument of the call", f"`{p_at}` is not rebound inside the loop over the branches",
+              f"`{p_at}` is reassigned inside the loop over the branches in view: from the second branch on the argument is what the FIRST "
+              f"branch made of it (for 'all': the first branch's grid), so branches with another number of compartments are selected "
+              f"only partly", node=rebound[0] if rebound else fi.node)
     arg = fuse_comprehensions(idx.inline(repo, fi, comp_call.args[1]))
     br = T.find(arg, lambda x: x.op == "elem" and x.args[0].op == "attr" and x.args[0].name == "_branches_in_view")
     col.check(br is not None and _is_self(br.args[0].args[0]), R, fi, "loc iterates the branches in view", "for i in self._branches_in_view",
